@@ -1,6 +1,7 @@
 package main
 
 import (
+	"go/token"
 	"fmt"
 	"go/types"
 	"strings"
@@ -21,6 +22,9 @@ func checkC44(c *Ctx, r *Report) {
 	r.rule("C44.R1", "writes, deletes, listings and bucket checks are forwarded to the primary only", 6)
 	r.rule("C44.R2", "downloads: replica bytes only on success, otherwise the primary's answer for the same request", 2)
 	r.rule("C44.R3", "field wiring: write = primary, read = replica", 4)
+	r.rule("C44.R4", "the S3 client behind either side reports a download as successful only after the body was read to its end without error: in awsS3Client.DownloadSegment / DownloadIndex the error of the body read (io.ReadAll / io.ReadFull / io.Copy) is compared with nil and never excused (no sentinel comparison, no errors.Is / errors.As) — the dual client falls back to the primary only on an error, so a truncated replica body returned with nil would be served as the object", 2)
+	r.Explanation += " (R4) awsS3Client.DownloadSegment and DownloadIndex test the error of the response-body read against nil and otherwise only wrap, merge or return it (a body cut short must surface as an error, because an error is the only thing that makes the dual client ask the primary)."
+	checkBodyReadComplete(m, r, "C44.R4")
 
 	iface := m.Named(pkgStorage, "S3Client")
 	dual := m.Named(pkgBroker, "dualS3Client")
@@ -341,4 +345,90 @@ func returnsCallResults(ret *ssa.Return, c *ssa.Call) bool {
 		}
 	}
 	return true
+}
+
+// checkBodyReadComplete (C44.R4, added after a seeded change accepted io.ErrUnexpectedEOF as a
+// legitimate short body in a new helper of the AWS client).
+func checkBodyReadComplete(m *Module, r *Report, rule string) {
+	readers := []string{"io.ReadAll", "io.ReadFull", "io.ReadAtLeast", "io.Copy", "io.CopyN", "io.CopyBuffer", "~bytes.Buffer).ReadFrom", "io/ioutil.ReadAll"}
+	for _, name := range []string{"(*awsS3Client).DownloadSegment", "(*awsS3Client).DownloadIndex"} {
+		fn := needFn(m, r, rule, pkgStorage, name)
+		if fn == nil {
+			continue
+		}
+		r.fn(fn)
+		n := 0
+		for _, call := range callsIn(fn) {
+			if nameMatches(calleeName(call.Common()), readers...) {
+				n++
+			}
+		}
+		if n == 0 {
+			r.unresolved(rule, name+": read of the response body", "no io.ReadAll / ReadFull / Copy call found (after helper folding)")
+			continue
+		}
+		// Judged on the uses of the read's error value rather than by a path search: after folding a
+		// helper that defers (Body.Close) the error travels through a spilled result, which a path
+		// search cannot follow (negative control storage6: bounded retry around the GET). The error
+		// may only be tested against nil, wrapped by fmt.Errorf, merged or returned; comparing it with
+		// a sentinel or handing it to errors.Is / errors.As is how "some read failures are fine" looks.
+		for _, call := range callsIn(fn) {
+			if !nameMatches(calleeName(call.Common()), readers...) {
+				continue
+			}
+			key := fmt.Sprintf("%s: the error of %s is checked against nil and never excused", name, calleeName(call.Common()))
+			v := call.Value()
+			var errs []ssa.Value
+			if v != nil {
+				for _, ref := range *v.Referrers() {
+					if e, ok := ref.(*ssa.Extract); ok && isErrorType(e.Type()) {
+						errs = append(errs, e)
+					}
+				}
+			}
+			if len(errs) == 0 {
+				r.viol(rule, key, m.Pos(call.Pos()), "the error result of the body read is discarded: a body cut short is returned as the object")
+				continue
+			}
+			nilTested, bad := false, ""
+			seen := map[ssa.Value]bool{}
+			var visit func(e ssa.Value, depth int)
+			visit = func(e ssa.Value, depth int) {
+				if seen[e] || depth > 6 {
+					return
+				}
+				seen[e] = true
+				for _, ref := range *e.Referrers() {
+					switch x := ref.(type) {
+					case *ssa.BinOp:
+						if (x.Op == token.EQL || x.Op == token.NEQ) && (isNilConst(x.X) || isNilConst(x.Y)) {
+							nilTested = true
+						} else {
+							bad = "compared with " + describe(x.X) + " / " + describe(x.Y) + " at " + m.Pos(x.Pos())
+						}
+					case *ssa.Phi:
+						visit(x, depth+1)
+					case *ssa.MakeInterface, *ssa.ChangeInterface:
+						visit(x.(ssa.Value), depth+1)
+					case *ssa.Call:
+						if cn := calleeName(&x.Call); cn != "fmt.Errorf" {
+							bad = "passed to " + cn + " at " + m.Pos(x.Pos())
+						}
+					case *ssa.Slice, *ssa.Store, *ssa.Return, *ssa.IndexAddr, *ssa.DebugRef:
+					}
+				}
+			}
+			for _, e := range errs {
+				visit(e, 0)
+			}
+			switch {
+			case bad != "":
+				r.viol(rule, key, m.Pos(call.Pos()), "the read error is "+bad+": some failed reads are accepted, and bytes of a body that ended early are returned with a nil error — the dual client then never asks the primary")
+			case !nilTested:
+				r.viol(rule, key, m.Pos(call.Pos()), "the read error is never compared with nil")
+			default:
+				r.ok(rule, key, m.Pos(call.Pos()), "")
+			}
+		}
+	}
 }
